@@ -697,7 +697,7 @@ def fuzz_campaign(ctx, which, seconds, seeds_for, replay_case, res, max_len=64):
             env.pop('PYTHONPATH', None)
             log = open(os.path.join(base, 'log%d' % s), 'wb')
             procs.append((subprocess.Popen(
-                [target, which, out, str(s), str(NPROC), '-max_total_time=%d' % seconds, '-max_len=%d' % max_len,
+                [VT_PYTHON, target, which, out, str(s), str(NPROC), '-max_total_time=%d' % seconds, '-max_len=%d' % max_len,
                  '-seed=%d' % (subseed(ctx.seed, 'fuzz', which, s) % (2 ** 31 - 1) + 1), '-dict=' + os.path.join(base, 'dict'),
                  '-verbosity=0', '-print_final_stats=1', cdir], stdout=log, stderr=subprocess.STDOUT, env=env, cwd=base), log))
         execs = 0
